@@ -188,6 +188,26 @@ pub fn test_case(case: &Case, rep: &mut Report) -> Result<(), Violation> {
             return Err(v("attenuation-granted-access", ctx_s()));
         }
     }
+    // the same two requirements when the authorizer of the extended token went through a
+    // snapshot before deciding (a verifier may well store and reload it)
+    if let Ok(a) = build_authorizer(Some(&t2), &case.authorizer, &pubs, big_limits()) {
+        let restored = guard(|| a.to_raw_snapshot().ok().and_then(|s| biscuit_auth::Authorizer::from_raw_snapshot(&s).ok()).map(|mut r| vcore::authz::normalize(r.authorize())));
+        if let Ok(Some(r2s)) = restored {
+            rep.class("extended_token_through_snapshot");
+            if let Outcome::Allow(i) = &r2s {
+                if r1 != Outcome::Allow(*i) {
+                    return Err(v("attenuation-granted-access:after-snapshot-restore", format!("after snapshot and restore: {:?}\n{}", r2s, ctx_s())));
+                }
+            }
+            if r2s.is_logic() {
+                for f in &r1.failed() {
+                    if !r2s.failed().contains(f) {
+                        return Err(v("attenuation-repaired-a-failed-check:after-snapshot-restore", format!("after snapshot and restore: {:?}\n{}", r2s, ctx_s())));
+                    }
+                }
+            }
+        }
+    }
     if r2.is_logic() {
         // (2) every failed check of the original still fails
         let f1 = r1.failed();
